@@ -443,6 +443,9 @@ def apply_rules(text, rules, log, where=''):
         toks = tokenize(text)
         for idx, (rid, pat, repl) in enumerate(parsed):
             for i in range(len(toks)):
+                # a pattern that starts with a plain identifier never matches a field / path segment
+                if i > 0 and toks[i - 1].text in ('.', '::') and pat and re.match(r'[A-Za-z_]', pat[0]):
+                    continue
                 m = pat_match(toks, i, pat)
                 if not m:
                     continue
